@@ -250,6 +250,8 @@ class Transport:
             path=path,
             q=query,
             body=(body.decode('utf-8', 'replace') if (body and self.record_bodies) else (len(body) if body else None)),
+            to=timeout,
+            h=sorted((k.lower(), v) for k, v in prepared.headers.items() if k.lower() in ('content-type', 'user-agent', 'authorization')),
         )
         bkey = (req['method'], path, query, body)
         reply = None
